@@ -188,13 +188,21 @@ def check(case):
     want = spec(body, m, v, bs, key, seq, ctype)
     mac = make_mac(m, v, key)
     import struct
-    got = ct_check_cbc_mac_and_pad(bytearray(body), mac,
-                                   bytearray(struct.pack(">Q", seq)), ctype,
-                                   v, bs)
+    bbody, bseq = bytearray(body), bytearray(struct.pack(">Q", seq))
+    got = ct_check_cbc_mac_and_pad(bbody, mac, bseq, ctype, v, bs)
     nt = (case["pad"] > bs) or touched
     labels = ["ver=%d.%d" % v, "corr=" + case["corr"],
               "spec=" + {True: "accept", False: "reject",
                          None: "either"}[want]]
+    # a check: it leaves its arguments alone and says the same again
+    if bytes(bbody) != bytes(body) or bytes(bseq) != struct.pack(">Q", seq):
+        return bad("check-modifies-its-arguments",
+                   "body %d -> %d bytes, sequence number %d -> %d bytes" % (
+                       len(body), len(bbody), 8, len(bseq)), nt=nt,
+                   labels=labels)
+    if ct_check_cbc_mac_and_pad(bbody, mac, bseq, ctype, v, bs) != got:
+        return bad("check-not-repeatable", "second call with the same "
+                   "objects answers %r" % (not got), nt=nt, labels=labels)
     if case["pad"] > bs:
         labels.append("pad>block")
     if want is None or got == want:
@@ -262,6 +270,13 @@ def site_cases(tier, seed):
                 yield {"site": {"level": "A", "suite": sid, "ver": list(v),
                                 "etm": False, "client": bool(k % 2), "m": m,
                                 "lens": [3, ln], "pad": k, "salt": seed % 4}}
+        # the sequence number the call site hands over, beyond 2^32
+        for m in ("legal_pad", "wrong_seq"):
+            k += 1
+            yield {"site": {"level": "A", "suite": sid, "ver": list(v),
+                            "etm": False, "client": bool(k % 2), "m": m,
+                            "lens": [3, 20, 9], "pad": k, "salt": seed % 4,
+                            "seq0": 2 ** 32 - 1}}
 
 
 def strategy(tier):
